@@ -218,6 +218,23 @@ def evaluate(case):
         if r == 0:
             _expect(kd.to_dict(_call(lambda: getattr(x, name)(kind="polarity"), "dual-selection", name), op=name),
                     Rr.unpolarity(da) if case["undual"] else Rr.polarity(da), "dual-selection", name, f"{name}(kind='polarity')")
+    # duality of SYMBOLIC operands (symbols a1, a2, a12 ...; duality permutes the blade order), evaluated by a keyword call
+    if case["mode"] == "frac" and d <= 4 and 1 <= len(ka) <= 8 and kind in ("hodge", "rp", "select"):
+        if kind == "hodge":
+            progs = [("hodge(a)", lambda a: a.hodge(), [("a", ka, va)], Rr.hodge(da)),
+                     ("unhodge(hodge(a))", lambda a: a.hodge().unhodge(), [("a", ka, va)], da)]
+        elif kind == "rp":
+            progs = [("a & b", lambda a, b: a & b, [("a", ka, va), ("b", case["b"]["keys"], _values(case["b"], case["mode"], "b"))], Rr.rp(da, db))] \
+                if 1 <= len(case["b"]["keys"]) <= 8 else []
+        else:
+            nm = "undual" if case["undual"] else "dual"
+            progs = [(f"{nm}(a)", lambda a: getattr(a, nm)(), [("a", ka, va)], None)] if r <= 1 else []
+        for what, fn, opnds, expd in progs:
+            if expd is None:
+                expd = kd.to_dict(getattr(x, nm)())
+            sc = kd.to_dict(_call(lambda: kd.sym_call(alg, fn, opnds), "hodge-value", kind), op=kind)
+            _expect({k: kd.plain(v) for k, v in sc.items()}, expd, "hodge-value", kind, f"symbolic {what} (keys {ka}) called with keyword values")
+        counters["checked:symbolic-keyword-call"] = 1
     labels = [f"kind:{kind}", f"d:{d}", "r:0" if r == 0 else ("r:1" if r == 1 else "r:2+"),
               "basis:custom" if cfg.get("basis") else "basis:default", f"mode:{case['mode']}"]
     if cfg.get("basis") and ref.orientation(ref.pss_key) < 0:
